@@ -46,7 +46,7 @@ CLAIMED = {
          "Trusted: go/ssa, VTA call graph resolution, standard-library callees treated as non-raising, the contract of File.Position (positions <= len(Buffer)) and of utf8.DecodeRuneInString/EncodeRune, mathematical integers. Not decided: the slices of split.go and token/file.go (contents of slices), recursion depth.", "DESIGN.md §2 C03"),
  "C09": ("must-pass-through / dominance analysis on the SSA control-flow graph + who-may-write and call-graph reachability rules",
          "Decides the control-flow contract between Parser.errors, Bad nodes and the nil error for every entry point, every Bad* allocation site, every store to the error list and every Clone()/restore lookahead region.",
-         "Trusted: go/ssa CFG and dominators, VTA call graph. Not decided: numeric range of error positions, one-error-per-Bad-node counting beyond 'each handler appends'.", "DESIGN.md §2 C09"),
+         "Trusted: go/ssa CFG and dominators, VTA call graph. The range 0 <= Pos <= End <= len(input) of the lexer's error positions is decided by the LEXBOUNDS run (C09/R5 with C03/R6). Not decided: one-error-per-Bad-node counting beyond 'each handler appends'.", "DESIGN.md §2 C09"),
  "C14": ("finite tables read out of the syntax tree / SSA on every run and compared with reference tables from the GoogleSQL lexical specification; exact set-domain dataflow for the byte classifiers",
          "Decides table agreement: reserved keywords, escape decode table incl. digit counts and code-point bounds, operator recognition (matched bytes = kind spelling = bytes skipped), comment openers, dot-identifier trigger set, character classes over all 256 bytes; the field-token reader, the raw-literal arm and IsKeyword have their shape; the comment terminator search is exhaustive (unit steps, gives up only where the terminator no longer fits, in-range accesses: LEXBOUNDS).",
          "Trusted: the reference tables typed into the checker from the documentation. Not decided: the number automaton, prefix x quote matrix, rejection of exactly the invalid inputs.", "DESIGN.md §2 C14"),
@@ -54,7 +54,7 @@ CLAIMED = {
          "Decides that everything the quoting functions can emit is decoded by the lexer to the value it was emitted for, that raw writes happen only after the escaper declined, that no lossy rune iteration feeds the output, that the identifier-quoting predicate uses the lexer's classifiers, and that the quoting helpers never index outside their operand (LEXBOUNDS).",
          "Trusted: specification decode table (checked against the lexer by C14/R2, which this check re-runs). Not decided: unicode.IsPrint over the full rune range.", "DESIGN.md §2 C15"),
  "C18": ("effect analysis over go/ssa: stores/escapes of addresses and references derived from package-level variables (interprocedural), import whitelist, concurrency/map-order instructions, type-graph reachability",
-         "Decides that outside package initialisers nothing writes to or lets escape package-level state, that there is no ambient input or scheduling/map-order dependence, and that no AST node can alias parser/lexer/file state.",
+         "Decides that outside package initialisers nothing writes to or lets escape package-level state, that there is no ambient input or scheduling/map-order dependence, that no AST node can alias parser/lexer/file state, and that no address-valued operand (pointer, map, func) is formatted into a message or an SQL text.",
          "Trusted: purity of the whitelisted standard-library functions; no unsafe/cgo (checked by the import rule).", "DESIGN.md §2 C18"),
  "C17": ("custom lint over the type-checked syntax tree (go/types field classification vs. generated switch) + SSA shape check of the engine",
          "Decides structurally, for all 264 node structs, that the generated traversal table pushes exactly the node-typed fields in reverse declaration order under their own names, that the 25-line engine has the pop/push/prune shape and Preorder stops calling yield once it returned false; this is the table the behaviour is driven by, so a wrong or missing entry is caught for every node type, including those no test traverses.",
